@@ -812,23 +812,38 @@ func addUTCTimings(mpd *m.MPD, cfg *ResponseConfig) {
 }
 
 func changeTimelineTimescale(inSTL *m.SegmentTimelineType, oldTimescale, newTimescale int) *m.SegmentTimelineType {
-	factor := float64(newTimescale) / float64(oldTimescale)
-	round := func(t uint64) uint64 {
-		return uint64(math.Round(float64(t) * factor))
+	conv := func(t uint64) uint64 {
+		return (t*uint64(newTimescale) + uint64(oldTimescale)/2) / uint64(oldTimescale)
 	}
+	// Convert the start and end of every segment, so that rounding errors do not accumulate
+	// and each duration is the difference between the converted end and start.
 	o := m.SegmentTimelineType{}
 	o.S = make([]*m.S, 0, len(inSTL.S))
+	var t uint64
+	var last *m.S
 	for _, s := range inSTL.S {
-		outS := m.S{
-			N: nil,
-			D: round(s.D),
-			R: s.R,
-			K: nil,
+		newRun := last == nil
+		if s.T != nil {
+			if last != nil && *s.T != t {
+				newRun = true
+			}
+			t = *s.T
 		}
-		if s.T != nil { // Only the first S element and discontinuities carry t
-			outS.T = m.Ptr(round(*s.T))
+		for i := 0; i <= s.R; i++ {
+			d := conv(t+s.D) - conv(t)
+			switch {
+			case newRun:
+				last = &m.S{T: m.Ptr(conv(t)), D: d}
+				o.S = append(o.S, last)
+				newRun = false
+			case last.D == d:
+				last.R++
+			default:
+				last = &m.S{D: d}
+				o.S = append(o.S, last)
+			}
+			t += s.D
 		}
-		o.S = append(o.S, &outS)
 	}
 	return &o
 }
